@@ -22,7 +22,15 @@ type gv struct {
 	dt    tensor.Dtype
 	batch int // index of the batch axis, -1 = none (weights, constants)
 	init  bool
+	// noisy: downstream of an operator whose float kernel (gonum/vecf32 assembly dot products and
+	// sums) rounds differently depending on the memory alignment of its operands; such values are
+	// reproducible only up to rounding, so discontinuous operators are never applied to them and
+	// comparisons on them use a rounding tolerance
+	noisy bool
 }
+
+var noisyOps = map[string]bool{"MatMul": true, "Gemm": true, "LinearRegressor": true, "Conv": true, "RNN": true, "GRU": true, "LSTM": true,
+	"Softmax": true, "LogSoftmax": true}
 
 type ggOpts struct {
 	maxNodes  int
@@ -90,8 +98,17 @@ func (gg *ggraph) emit(op string, ins []string, outs []gv, attrs ...*onnx.Attrib
 			}
 		}
 	}
+	noisy := noisyOps[op]
+	for _, i := range ins {
+		for _, v := range gg.pool {
+			if v.name == i && v.noisy {
+				noisy = true
+			}
+		}
+	}
 	for _, o := range outs {
 		if o.name != "" {
+			o.noisy = noisy
 			gg.pool = append(gg.pool, o)
 		}
 	}
@@ -223,7 +240,7 @@ func tCompareLogic(gg *ggraph, rt *rapid.T) bool {
 			return true
 		}
 	}
-	v, ok := gg.pick(rt, "cmpIn", isF32)
+	v, ok := gg.pick(rt, "cmpIn", func(v gv) bool { return isF32(v) && !v.noisy })
 	if !ok {
 		return false
 	}
@@ -465,7 +482,7 @@ func tReduce(gg *ggraph, rt *rapid.T) bool {
 	cand := nonBatchAxes(v)
 	axis := rapid.SampledFrom(cand).Draw(rt, "redAxis")
 	keep := rapid.Bool().Draw(rt, "redKeep")
-	if rapid.IntRange(0, 2).Draw(rt, "argmax") == 0 && v.dt == tensor.Float32 && !gg.opts.continuousOnly {
+	if rapid.IntRange(0, 2).Draw(rt, "argmax") == 0 && v.dt == tensor.Float32 && !gg.opts.continuousOnly && !v.noisy {
 		// ArgMax keepdims: keep the reduced axis as 1 or drop it
 		out := reducedShape(v.shape, []int{axis}, keep)
 		nb := v.batch
@@ -536,7 +553,7 @@ func tShapeCastConst(gg *ggraph, rt *rapid.T) bool {
 			return false
 		}
 		to := rapid.SampledFrom([]tensor.Dtype{tensor.Float64, tensor.Int64, tensor.Int32, tensor.Float32}).Draw(rt, "castTo")
-		if gg.opts.continuousOnly {
+		if gg.opts.continuousOnly || v.noisy {
 			to = tensor.Float64
 		}
 		gg.emit("Cast", []string{v.name}, []gv{gg.out(cloneInts(v.shape), to, v.batch)}, attrI("to", int64(onnxTypeOf[to])))
